@@ -160,6 +160,10 @@ class ReadStand:
             payload = payload + b"\x55" * 4 if fid % 2 else payload[: max(0, size - 1)]
         elif cls == "wrongsize0":
             payload = b""
+        elif cls == "wrongboth":
+            # a changed definition at the sender: other size and other hash; the tail looks like a header of an unknown type
+            payload = (payload + b"\x0f\x27\x00\x00" + b"\x55" * 8) if fid % 2 else payload[: max(0, size - 1)]
+            ver = (ver + 1) & 0xFFFFFFFF or 1
         elif cls in ("wrongver", "wrongver0"):
             ver = (ver + 1) & 0xFFFFFFFF or 1
         elif cls == "zerover":
